@@ -309,6 +309,7 @@ func main() {
 			}
 		}
 	}
+	scs = append(scs, outageScenarios(run.Thorough())...)
 	// the deterministic steady-state runs come first so that the time budget they do not
 	// use is inherited by the enumerations
 	for _, seed := range []uint64{1, 2} {
